@@ -47,6 +47,21 @@ def find_fn(shape, rel, name, impl_self=None, impl_trait=None):
         if impl_trait is not None and (impl is None or impl.get("trait") != impl_trait):
             continue
         cands.append(fn)
+    if not cands:
+        # the function may have been moved to another file: accept it when exactly one definition exists crate-wide
+        for f_ in shape:
+            if f_["file"] == rel:
+                continue
+            out2 = []
+            _fns_in(f_["items"], out2)
+            for impl, fn, test in out2:
+                if test or fn["name"] != name:
+                    continue
+                if impl_self is not None and (impl is None or impl.get("self_ty") != impl_self):
+                    continue
+                if impl_trait is not None and (impl is None or impl.get("trait") != impl_trait):
+                    continue
+                cands.append(fn)
     if len(cands) != 1:
         raise MissingAnchor("function `%s` in %s%s: expected 1 definition, found %d" % (
             name, rel, " (impl %s for %s)" % (impl_trait, impl_self) if impl_self else "", len(cands)))
